@@ -310,6 +310,7 @@ func c11Worker(args []string) int {
 		}
 	}
 	n, nontriv := 0, 0
+	var sampleHist []string
 	for hi, h := range hs {
 		if hi%nsh != shard {
 			continue
@@ -367,6 +368,9 @@ func c11Worker(args []string) int {
 		mu.Lock()
 		if histHits > 0 {
 			nontriv++
+			if len(h) >= 3 && sampleHist == nil {
+				sampleHist = append([]string{fmt.Sprintf("pool reuses in this history: %d; gc disabled: %v", histHits, gcOff)}, names...)
+			}
 		}
 		mu.Unlock()
 		debug.SetGCPercent(100)
@@ -378,7 +382,7 @@ func c11Worker(args []string) int {
 			runtime.GC()
 		}
 	}
-	out.Encode(c11Msg{Kind: "stat", N: n, NonTriv: nontriv, Hits: hits, Gets: gets})
+	out.Encode(c11Msg{Kind: "stat", N: n, NonTriv: nontriv, Hits: hits, Gets: gets, History: sampleHist})
 	return 0
 }
 
@@ -482,6 +486,9 @@ func runC11(c *ev.Ctx) {
 					}
 					for k, v := range m.Gets {
 						totalGets[k] += v
+					}
+					if len(m.History) > 0 {
+						c.Sample(map[string]any{"executed_history": m.History})
 					}
 					mu.Unlock()
 				}
